@@ -361,3 +361,20 @@ func Ticks() int {
 	}
 	return n
 }
+
+var live atomic.Int32
+
+// DeferredAtomic: the deferred decrement must run at function exit, not at the defer statement.
+func DeferredAtomic() int32 {
+	seen := make(chan int32, 1)
+	done := make(chan struct{})
+	go func() {
+		live.Add(1)
+		defer live.Add(-1)
+		seen <- live.Load()
+		<-done
+	}()
+	v := <-seen
+	close(done)
+	return v
+}
